@@ -48,4 +48,6 @@ func c04(c *Ctx) {
 	errflow.E5(c.P, r, apiCountFuncs)
 	errflow.E5b(c.P, r, apiCountFuncs)
 	r.Floor("A1", "writer functions analysed", r.Counters["writer_functions"], 20)
+	// "a rejected call leaves no partial packet" — nor any other trace: a refused Add/RemoveElementaryStream changes nothing
+	joinRefused(c, "S5")
 }
